@@ -36,7 +36,7 @@ func init() {
 		Shards:    shards(8, 16),
 		Timeout:   timeouts(4*time.Minute, 40*time.Minute),
 		MinEvals:  200,
-		Required:  []string{"fault:read-error", "fault:read-eof", "fault:peer-close", "fault:write-fail", "fault:ctx-cancel", "fault:call-cancel", "hostile:unknown-tag", "hostile:repeated-tag", "hostile:wrong-type", "hostile:abnormal-frame", "hostile:garbage", "later_call_checked", "pending_calls_returned"},
+		Required:  []string{"fault:read-error", "fault:read-eof", "fault:peer-close", "fault:write-fail", "fault:ctx-cancel", "fault:call-cancel", "hostile:unknown-tag", "hostile:repeated-tag", "hostile:wrong-type", "hostile:abnormal-frame", "hostile:garbage", "hostile:overlong-rread", "fault:local-failure", "later_call_checked", "pending_calls_returned"},
 		Run:       runC12,
 	})
 }
@@ -196,6 +196,12 @@ func runC12(w *mon.W) {
 			idx++
 			if w.Mine(idx) {
 				c12CallCancel(w, P, i, s)
+			}
+		}
+		for variant := 0; variant < 3; variant++ {
+			idx++
+			if w.Mine(idx) {
+				c12LocalFailure(w, P, variant, s)
 			}
 		}
 	}
@@ -496,12 +502,100 @@ func c12CallCancel(w *mon.W, P, i, scen int) {
 	w.NT(fmt.Sprintf("callcancel/%d/%d", P, i))
 }
 
+// c12LocalFailure: a call that fails on its own before anything is sent (context already
+// ended, or a request that cannot fit in msize) must not disturb the calls in flight.
+func c12LocalFailure(w *mon.W, P, variant, scen int) {
+	what := []string{"a call with an already-cancelled context", "a call whose request is larger than msize", "both"}[variant]
+	desc := fmt.Sprintf("scenario %d: %d pending calls, then %s", scen, P, what)
+	w.Case("C12 %s", desc)
+	e := newC12(w, desc)
+	if e == nil {
+		return
+	}
+	defer e.h.close()
+	w.Eval()
+	w.Count("fault:local-failure", 1)
+	cs := e.launch(P, c12kinds)
+	if !settle() || !e.absorb(cs) {
+		return
+	}
+	local := func(f func() error) bool {
+		var err error
+		fin := make(chan struct{})
+		go func() { err = f(); close(fin) }()
+		q := mon.AwaitQuiesce(fin)
+		if q.Hung {
+			e.bad("hang", "local-failure-hangs", "%s does not return (blocked at %s)", what, q.Sites)
+			return false
+		}
+		if q.Inconclusive {
+			return false
+		}
+		if err == nil {
+			e.bad("mismatch", "local-failure-succeeds", "%s returned success", what)
+			return false
+		}
+		return true
+	}
+	if variant == 0 || variant == 2 {
+		for k := 0; k < 20; k++ { // the cancellation may be noticed before or after the hand-off to the transport
+			cctx, cancel := context.WithCancel(context.Background())
+			cancel()
+			if !local(func() error { _, err := e.h.sess.Stat(cctx, 777); return err }) {
+				return
+			}
+		}
+	}
+	if variant == 1 || variant == 2 {
+		big := strings.Repeat("n", 65535)
+		if !local(func() error {
+			_, _, err := e.h.sess.Create(context.Background(), 778, big, 0644, p9p.OREAD)
+			return err
+		}) {
+			return
+		}
+	}
+	if !settle() {
+		return
+	}
+	e.h.take() // a pre-cancelled call may or may not have reached the wire
+	// the calls in flight are answered now: each must get its own result
+	e.mu.Lock()
+	for _, c := range cs {
+		if c.done {
+			e.mu.Unlock()
+			e.bad("mismatch", "local-failure-disturbed-other-call", "%s made pending call uid=%d return (uid=%d err=%v)", what, c.uid, c.res.uid, c.res.err)
+			return
+		}
+	}
+	e.mu.Unlock()
+	for _, c := range cs {
+		e.h.reply(replyFor(c.req, c.uid))
+	}
+	if !settle() {
+		return
+	}
+	e.mu.Lock()
+	defer e.mu.Unlock()
+	for _, c := range cs {
+		if !c.done || c.res.err != nil || c.res.uid != c.uid {
+			e.bad("mismatch", "local-failure-disturbed-other-call", "after %s, pending call uid=%d returned done=%v uid=%d err=%v", what, c.uid, c.done, c.res.uid, c.res.err)
+			return
+		}
+	}
+	w.NT(fmt.Sprintf("local/%d/%d", P, variant))
+}
+
 // ---- hostile peer
 
 func c12Hostile(w *mon.W, no int) {
 	r := w.Rng
 	P := 1 + r.Intn(6)
-	class := []string{"unknown-tag", "repeated-tag", "wrong-type", "abnormal-frame", "garbage", "notag", "rversion", "neighbour-tag", "t-message"}[r.Intn(9)]
+	class := []string{"unknown-tag", "repeated-tag", "wrong-type", "abnormal-frame", "garbage", "notag", "rversion", "neighbour-tag", "t-message", "overlong-rread", "cfs-overlong-rread"}[r.Intn(11)]
+	if class == "cfs-overlong-rread" {
+		c12OverlongDirRead(w, no)
+		return
+	}
 	follow := r.Intn(2) == 0 // send the correct replies afterwards
 	desc := fmt.Sprintf("hostile #%d: %d pending calls, class=%s, correct replies afterwards=%v", no, P, class, follow)
 	e := newC12(w, desc)
@@ -550,6 +644,25 @@ func c12Hostile(w *mon.W, no int) {
 	case "rversion":
 		frames = append(frames, mk(p9p.NOTAG, p9p.MessageRversion{MSize: 4096, Version: "9P2000"}))
 		w.Count("hostile:unknown-tag", 1)
+	case "overlong-rread":
+		// a well-formed Rread carrying more data than the Tread asked for
+		var rd *c12call
+		for _, c := range cs {
+			if _, ok := c.req.Message.(p9p.MessageTread); ok {
+				rd = c
+			}
+		}
+		if rd == nil {
+			class = "unknown-tag"
+			frames = append(frames, mk(victim.req.Tag+2000, replyFor(victim.req, 424242).Message))
+			w.Count("hostile:unknown-tag", 1)
+			break
+		}
+		victim = rd
+		data := append([]byte(fmt.Sprintf("uid-%d", rd.uid)), make([]byte, 300)...)
+		frames = append(frames, mk(rd.req.Tag, p9p.MessageRread{Data: data}))
+		answered[rd.uid] = true
+		w.Count("hostile:overlong-rread", 1)
 	case "repeated-tag":
 		fr := refcodec.MustFrame(replyFor(victim.req, victim.uid))
 		frames = append(frames, fr, fr)
@@ -632,6 +745,9 @@ func c12Hostile(w *mon.W, no int) {
 				e.bad("mismatch", "wrong-typed-reply-accepted", "call uid=%d (%v) was answered with a message of the wrong type %s and returned success (uid %d)", c.uid, c.req.Type, hexHead(frames[0]), c.res.uid)
 				return
 			}
+		case c.res.uid == -3:
+			e.bad("mismatch", "read-count-exceeds-buffer", "call uid=%d: %s (the peer sent more data than was asked for)", c.uid, c.res.desc)
+			return
 		case c.res.err == nil && c.res.uid != c.uid:
 			e.bad("mismatch", "crossed-reply", "call uid=%d returned the result uid=%d", c.uid, c.res.uid)
 			return
@@ -644,4 +760,70 @@ func c12Hostile(w *mon.W, no int) {
 	if w.SampleDue(173) {
 		w.Sample(map[string]interface{}{"class": class, "pending_calls": P, "victim_request": victim.req.Type.String(), "hostile_frames": hex, "correct_replies_afterwards": follow})
 	}
+}
+
+// c12OverlongDirRead lists a directory through the client file-system layer while the
+// peer answers every Tread with more bytes than were asked for: the client must survive
+// (a crash is observed through the case log) and must not hand out more than it asked.
+func c12OverlongDirRead(w *mon.W, no int) {
+	desc := fmt.Sprintf("hostile #%d: directory listing through CFileSys, peer answers Tread with an over-long Rread", no)
+	w.Case("C12 %s", desc)
+	e := newC12(w, desc)
+	if e == nil {
+		return
+	}
+	defer e.h.close()
+	w.Count("hostile:overlong-rread", 1)
+	entry, _ := refcodec.EncodeStat(p9p.Dir{Name: "entry", UID: "u", GID: "g", MUID: "m"})
+	reads := 0
+	e.h.mu.Lock()
+	e.h.onReq = func(fc *p9p.Fcall) {
+		switch m := fc.Message.(type) {
+		case p9p.MessageTattach:
+			e.h.reply(&p9p.Fcall{Type: p9p.Rattach, Tag: fc.Tag, Message: p9p.MessageRattach{Qid: p9p.Qid{Type: p9p.QTDIR, Path: 1}}})
+		case p9p.MessageTopen:
+			e.h.reply(&p9p.Fcall{Type: p9p.Ropen, Tag: fc.Tag, Message: p9p.MessageRopen{Qid: p9p.Qid{Type: p9p.QTDIR, Path: 1}, IOUnit: 128}})
+		case p9p.MessageTread:
+			reads++
+			if reads > 3 {
+				e.h.reply(&p9p.Fcall{Type: p9p.Rread, Tag: fc.Tag, Message: p9p.MessageRread{}})
+				return
+			}
+			var data []byte
+			for len(data) <= int(m.Count)+200 {
+				data = append(data, entry...)
+			}
+			e.h.reply(&p9p.Fcall{Type: p9p.Rread, Tag: fc.Tag, Message: p9p.MessageRread{Data: data}})
+		default:
+			e.h.reply(replyFor(fc, 1))
+		}
+	}
+	e.h.mu.Unlock()
+	fin := make(chan struct{})
+	go func() {
+		defer close(fin)
+		ctx := context.Background()
+		cfs := p9p.CFileSys(e.h.sess)
+		root, err := cfs.Attach(ctx, "u", "", nil)
+		if err != nil {
+			return
+		}
+		next, err := root.OpenDir(ctx)
+		if err != nil {
+			return
+		}
+		for k := 0; k < 8; k++ {
+			ds, err := next(ctx)
+			if err != nil || len(ds) == 0 {
+				return
+			}
+		}
+	}()
+	q := mon.AwaitQuiesce(fin)
+	if q.Hung {
+		e.bad("hang", "overlong-rread-listing-hangs", "listing does not return; blocked at %s", q.Sites)
+		return
+	}
+	w.Eval()
+	w.NT("hostile/cfs-overlong-rread")
 }
